@@ -35,7 +35,10 @@ Family(v) == IF IsChain THEN "chain-" \o Rec[l].c.scn_class
              ELSE IF v.tls /\ v.ver = "2" /\ v.auth = "none" /\ v.hosthdr # "none" THEN "h2-host-fallback"
              ELSE IF Subject(v) /\ Match(v) /\ Bytes(NamedHost(v)) # Bytes(v.sni) THEN "letter-case"
              ELSE "other"
-Key(v, o) == [family |-> Family(v), clause |-> FailedClause(v, o), class |-> Class(v)]
+\* chain records: the class is the scenario's view of the request (stable under re-spelling and seed)
+HostClass(v) == IF NamedHost(v) = "none" THEN "absent" ELSE IF Match(v) THEN "match" ELSE "differ"
+KeyClass(v) == IF IsChain THEN <<v.ver, "host-" \o HostClass(v), "sni-" \o v.sni>> ELSE Class(v)
+Key(v, o) == [family |-> Family(v), clause |-> FailedClause(v, o), class |-> KeyClass(v)]
 
 \* tool sanity: the record is inside the domain the spec enumerates
 WellFormed == /\ vec \in Vectors
